@@ -331,7 +331,8 @@ func (node *TopNode) resolveMerge(binding *syntax.MergeExp, t syntax.Type,
 	} else {
 		forkRefId = binding.Call.GetFqid()
 	}
-	parts, errs := node.getParts(binding.GetCall(), fork, forkRefId)
+	parts, errs := node.getParts(binding.GetCall(), fork, forkRefId,
+		fixedForkIndices(binding.Value, binding.GetCall()))
 	if err := errs.If(); err != nil {
 		util.PrintError(err, "runtime",
 			"Resolving parts for %s.  This will likely result in further errors.",
@@ -467,9 +468,59 @@ func findForkingSubnode(n *Node, src *syntax.CallStm) *Node {
 	return nil
 }
 
+// fixedForkIndices returns the indices, for calls other than src, which
+// the references in a merged value that fork over src have been fixed to.
+//
+// When a merge over an enclosing mapped call has been expanded at compile
+// time, each of the resulting merges over src is for one fork of the
+// enclosing call, which is recorded only in the references in its value.
+func fixedForkIndices(value syntax.Exp,
+	src *syntax.CallStm) map[*syntax.CallStm]syntax.CollectionIndex {
+	if value == nil {
+		return nil
+	}
+	var result map[*syntax.CallStm]syntax.CollectionIndex
+	for _, ref := range value.FindRefs() {
+		if _, ok := ref.Forks[src]; !ok {
+			continue
+		}
+		for c, i := range ref.Forks {
+			if c == src || i == nil || i.IndexSource() != nil {
+				continue
+			}
+			if result == nil {
+				result = make(map[*syntax.CallStm]syntax.CollectionIndex)
+			}
+			if j, ok := result[c]; ok && !indexEqual(convertForkPart(i), convertForkPart(j)) {
+				// Inconsistent, so not a constraint.
+				return nil
+			}
+			result[c] = i
+		}
+	}
+	return result
+}
+
+// matchesFixed returns true unless the fork ID has a determined part for one
+// of the given calls which differs from the given index.
+func (f ForkId) matchesFixed(fixed map[*syntax.CallStm]syntax.CollectionIndex) bool {
+	if len(fixed) == 0 {
+		return true
+	}
+	for _, part := range f {
+		if i, ok := fixed[part.Split.Call]; ok &&
+			part.Id.IndexSource() == nil &&
+			!indexEqual(part.Id, convertForkPart(i)) {
+			return false
+		}
+	}
+	return true
+}
+
 func (node *TopNode) getParts(src *syntax.CallStm,
 	forkId ForkId,
-	id string) ([]*ForkSourcePart, syntax.ErrorList) {
+	id string,
+	fixed map[*syntax.CallStm]syntax.CollectionIndex) ([]*ForkSourcePart, syntax.ErrorList) {
 	boundNode := node.allNodes[id]
 	if boundNode == nil {
 		panic("unknown bound node - this should not be possible in properly-compiled code")
@@ -502,7 +553,7 @@ func (node *TopNode) getParts(src *syntax.CallStm,
 						inner:   err,
 					})
 				}
-			} else if fork.forkId.Matches(forkId) {
+			} else if fork.forkId.Matches(forkId) && fork.forkId.matchesFixed(fixed) {
 				// Several forks of the bound node share this part when
 				// the node is also forked over other calls; the merge
 				// has one element per part, not per fork.
@@ -560,38 +611,42 @@ func (node *TopNode) getParts(src *syntax.CallStm,
 			}
 		}
 	} else if len(boundNode.forks[0].forkId) > 1 {
-		id := make(ForkId, len(forkId), len(forkId)+1)
-		copy(id, forkId)
-		allow := func(part *ForkSourcePart) bool {
-			for _, fork := range boundNode.forks {
-				if fork.forkId.Matches(forkId) {
-					if p, err := fork.forkId.matchPart(part.Split.Call); err != nil {
-						errs = append(errs, &elementError{
-							element: "unmatched fork source " + part.Split.Call.GoString(),
-							inner:   err,
-						})
-					} else if indexEqual(p.Id, part.Id) {
-						return true
-					}
+		// The bound node forks over more than one call.  The forks of
+		// src may be different for each fork of the other calls, so use
+		// the parts of those forks of the bound node which match.
+		matchingParts := make([]*ForkSourcePart, 0, len(parts))
+		var empty *ForkSourcePart
+		for _, fork := range boundNode.forks {
+			if !fork.forkId.Matches(forkId) || !fork.forkId.matchesFixed(fixed) {
+				continue
+			}
+			p, err := fork.forkId.matchPart(src)
+			if err != nil {
+				errs = append(errs, &elementError{
+					element: "unmatched fork source " + src.GoString(),
+					inner:   err,
+				})
+				continue
+			}
+			if _, ok := p.Id.(emptyFork); ok {
+				empty = p
+				continue
+			}
+			seen := false
+			for _, q := range matchingParts {
+				if q == p || indexEqual(q.Id, p.Id) {
+					seen = true
+					break
 				}
 			}
-			return false
-		}
-		for len(parts) > 0 && !allow(parts[0]) {
-			parts = parts[1:]
-		}
-		for len(parts) > 1 && !allow(parts[len(parts)-1]) {
-			parts = parts[:len(parts)-1]
-		}
-		alloc := false
-		for i := len(parts) - 1; i > 1; i-- {
-			if !alloc {
-				parts = append(parts[:i:i], parts[i+1:]...)
-				alloc = true
-			} else {
-				parts = append(parts[:i], parts[i+1:]...)
+			if !seen {
+				matchingParts = append(matchingParts, p)
 			}
 		}
+		if len(matchingParts) == 0 && empty != nil {
+			matchingParts = append(matchingParts, empty)
+		}
+		parts = matchingParts
 	} else if len(parts) == 0 {
 		return forkId.getUnmatchedForkParts(boundNode), errs
 	}
